@@ -100,7 +100,8 @@ int main(int argc, char** argv) {
     if (hc_is(0, "alt")) {
       int t2 = (int)hc_int(1), t = (int)hc_int(2); var src = vals[t]; var ty = type_of(src);
       kinds[t2] = kinds[t];
-      if (hc_is(3, "heap")) vals[t2] = assign(alloc_raw(ty), src);
+      if (hc_is(3, "lit")) { static char lit[] = "literal"; vals[t2] = $S(lit); keepalive[t2] = NULL; }       /* a stack String around characters it does not own */
+      else if (hc_is(3, "heap")) vals[t2] = assign(alloc_raw(ty), src);
       else if (hc_is(3, "elem")) { var a = new(Array, ty, src); keepalive[t2] = a; vals[t2] = get(a, $I(0)); }
       else { /* stack: a header + body in this frame would die with the block; use static storage tagged AllocStack */
         char* buf = calloc(1, sizeof(struct Header) + size(ty) + 8); var o = header_init(buf, ty, AllocStack);
@@ -142,6 +143,12 @@ int main(int argc, char** argv) {
       volatile uint64_t h1 = 0, h2 = 0; volatile int e1 = -1, e2 = -1;
       HC_TRY(e1 = eq(vals[a], vals[b]); e2 = eq(vals[b], vals[a]); h1 = hash(vals[a]); h2 = hash(vals[b]));
       ev_begin("same"); ev_int("eq", e1); ev_int("eqr", e2); ev_limbs("h", h1); ev_limbs("h2", h2); ev_str("exc", hc_exc); ev_int("line", cur_line); ev_end();
+    } else if (hc_is(0, "anti")) {               /* both directions of one comparison, whatever the operands are */
+      volatile int r1 = 9, r2 = 9, q1 = -1, q2 = -1; const char* x1 = ""; const char* x2 = "";
+      HC_TRY(r1 = cmp(vals[a], vals[b]); q1 = eq(vals[a], vals[b])); x1 = hc_exc;
+      HC_TRY(r2 = cmp(vals[b], vals[a]); q2 = eq(vals[b], vals[a])); x2 = hc_exc;
+      ev_begin("anti"); ev_int("r1", r1 < 0 ? -1 : r1 > 0 ? 1 : 0); ev_int("r2", r2 < 0 ? -1 : r2 > 0 ? 1 : 0); ev_int("eq1", q1); ev_int("eq2", q2);
+      ev_str("exc", x1); ev_str("exc2", x2); ev_int("line", cur_line); ev_end();
     } else if (hc_is(0, "less")) {               /* the script states that a < b: both directions and the predicates */
       volatile int r1 = 9, r2 = 9, l = -1, g = -1, q = -1;
       HC_TRY(r1 = cmp(vals[a], vals[b]); r2 = cmp(vals[b], vals[a]); l = lt(vals[a], vals[b]); g = gt(vals[b], vals[a]); q = eq(vals[a], vals[b]));
